@@ -3,10 +3,20 @@
 //! (named or unnamed) thread whose MDC is filled with `log_mdc::insert`.
 //!
 //! case : level(1..5)  message  target  module_path?  file?  line?  thread-name?  mdc(`k;v,k;v…` insertion sequence)
+//!        message = <str> (one `{}` argument) | `args:p1,p2,…` (0–4 `{}` arguments: `format_args!("{}{}", p1, p2)`) |
+//!        `lit:a` (`format_args!("request body: {} (end)", a)`) | `const:~` (a literal without arguments) |
+//!        `chars:s` (a `Display` that hands over one character per `write_str`) | `pad:a,b` (`"{:>6}|{:<4}|"`)
 //! obs  : `time=<str> tid=<nat> order=<keys in log_mdc::iter order> indep=ok|FAIL-… line=<str>`
 //!        `time` is cut out of the emitted line, `tid` is `thread_id::get()` of the encoding thread,
 //!        `order` is what `log_mdc::iter` yields on that thread — environment facts handed to the model.
 //!        `indep` is the verdict of an independent parse with `serde_json::from_slice::<Value>`.
+//!
+//! Several threads (`multi`): one shared `JsonEncoder`, every entry on its own thread context.
+//! case : `multi`  mode  entry|entry|…   entry = thread?;level;message;target;module_path?;file?;line?;mdc
+//!        mode = `main` (all entries on the harness' own main thread, thread must be `main`) | `succ` (a fresh thread per
+//!        entry, joined before the next is spawned — the OS hands the thread id out again) | `conc` (all threads alive at
+//!        the same time, encoding between two barriers)
+//! obs  : `multi` + per entry ` tid;time;order;kind;indep;payload`
 //!
 //! History cases: several encodes on ONE thread with ONE `JsonEncoder`.
 //! case : `seq`  thread-name?  step|step|…   step = level;message;target;module_path?;file?;line?;mdc;writer;display
@@ -86,9 +96,157 @@ fn rand_string(rng: &mut Rng, thorough: bool, no_nul: bool) -> String {
     }
 }
 
+/// how the message reaches the encoder: which `format_args!` shape, hence which `write_str` pieces
+#[derive(Clone, PartialEq)]
+enum Shape {
+    Plain,
+    Args,
+    Lit,
+    Const,
+    Chars,
+    Pad,
+}
+
+const LIT_HEAD: &str = "request body: ";
+const LIT_TAIL: &str = " (end)";
+const CONST_TEXT: &str = "static \"literal\" \\ message\n";
+
+#[derive(Clone)]
+struct Msg {
+    shape: Shape,
+    parts: Vec<String>,
+    text: String,
+}
+
+fn pad_left(s: &str, w: usize) -> String {
+    let n = s.chars().count();
+    format!("{}{}", " ".repeat(w.saturating_sub(n)), s)
+}
+
+fn pad_right(s: &str, w: usize) -> String {
+    let n = s.chars().count();
+    format!("{}{}", s, " ".repeat(w.saturating_sub(n)))
+}
+
+impl Msg {
+    fn new(shape: Shape, parts: Vec<String>) -> Option<Msg> {
+        let text = match shape {
+            Shape::Plain | Shape::Chars => {
+                if parts.len() != 1 {
+                    return None;
+                }
+                parts[0].clone()
+            }
+            Shape::Args => {
+                if parts.len() > 4 {
+                    return None;
+                }
+                parts.concat()
+            }
+            Shape::Lit => {
+                if parts.len() != 1 {
+                    return None;
+                }
+                format!("{}{}{}", LIT_HEAD, parts[0], LIT_TAIL)
+            }
+            Shape::Const => {
+                if !parts.is_empty() {
+                    return None;
+                }
+                CONST_TEXT.to_owned()
+            }
+            Shape::Pad => {
+                if parts.len() != 2 {
+                    return None;
+                }
+                format!("{}|{}|", pad_left(&parts[0], 6), pad_right(&parts[1], 4))
+            }
+        };
+        Some(Msg { shape, parts, text })
+    }
+    fn plain(s: &str) -> Msg {
+        Msg { shape: Shape::Plain, parts: vec![s.to_owned()], text: s.to_owned() }
+    }
+    fn enc(&self) -> String {
+        let tag = match self.shape {
+            Shape::Plain => return enc_str(&self.text),
+            Shape::Args => "args",
+            Shape::Lit => "lit",
+            Shape::Const => "const",
+            Shape::Chars => "chars",
+            Shape::Pad => "pad",
+        };
+        let ps: Vec<String> = self.parts.iter().map(|p| enc_str(p)).collect();
+        format!("{}:{}", tag, enc_list(",", &ps))
+    }
+    fn dec(s: &str) -> Option<Msg> {
+        match s.split_once(':') {
+            None => dec_str(s).map(|t| Msg::plain(&t)),
+            Some((tag, rest)) => {
+                let shape = match tag {
+                    "args" => Shape::Args,
+                    "lit" => Shape::Lit,
+                    "const" => Shape::Const,
+                    "chars" => Shape::Chars,
+                    "pad" => Shape::Pad,
+                    _ => return None,
+                };
+                let parts: Option<Vec<String>> = dec_list(',', rest).iter().map(|p| dec_str(p)).collect();
+                Msg::new(shape, parts?)
+            }
+        }
+    }
+}
+
+/// hands over its text one character per `write_str`
+struct PerChar<'a>(&'a str);
+
+impl<'a> std::fmt::Display for PerChar<'a> {
+    fn fmt(&self, f: &mut std::fmt::Formatter) -> std::fmt::Result {
+        let mut b = [0u8; 4];
+        for c in self.0.chars() {
+            f.write_str(c.encode_utf8(&mut b))?;
+        }
+        Ok(())
+    }
+}
+
+/// builds the `fmt::Arguments` of a message shape and hands it to `f` (the value cannot outlive the expression)
+fn with_message<R>(m: &Msg, f: &mut dyn FnMut(std::fmt::Arguments) -> R) -> R {
+    let p = &m.parts;
+    match m.shape {
+        Shape::Plain => f(format_args!("{}", p[0])),
+        Shape::Args => match p.len() {
+            0 => f(format_args!("")),
+            1 => f(format_args!("{}", p[0])),
+            2 => f(format_args!("{}{}", p[0], p[1])),
+            3 => f(format_args!("{}{}{}", p[0], p[1], p[2])),
+            _ => f(format_args!("{}{}{}{}", p[0], p[1], p[2], p[3])),
+        },
+        Shape::Lit => f(format_args!("request body: {} (end)", p[0])),
+        Shape::Const => f(format_args!("static \"literal\" \\ message\n")),
+        Shape::Chars => f(format_args!("{}", PerChar(&p[0]))),
+        Shape::Pad => f(format_args!("{:>6}|{:<4}|", p[0], p[1])),
+    }
+}
+
 fn case_line(
     level: usize,
     msg: &str,
+    target: &str,
+    mp: Option<&str>,
+    file: Option<&str>,
+    line: Option<u32>,
+    thread: Option<&str>,
+    mdc: &[(String, String)],
+) -> String {
+    case_line_m(level, &Msg::plain(msg), target, mp, file, line, thread, mdc)
+}
+
+#[allow(clippy::too_many_arguments)]
+fn case_line_m(
+    level: usize,
+    msg: &Msg,
     target: &str,
     mp: Option<&str>,
     file: Option<&str>,
@@ -100,7 +258,7 @@ fn case_line(
     format!(
         "{}\t{}\t{}\t{}\t{}\t{}\t{}\t{}",
         level,
-        enc_str(msg),
+        msg.enc(),
         enc_str(target),
         enc_opt(mp, enc_str),
         enc_opt(file, enc_str),
@@ -176,13 +334,84 @@ pub fn gen(rng: &mut Rng, n: usize, thorough: bool, emit: &mut dyn FnMut(String)
     let many: Vec<(String, String)> = (0..if thorough { 200 } else { 40 }).map(|i| (format!("key{}", i), format!("v\n{}", i))).collect();
     emit(case_line(5, "x", "t", None, None, None, None, &many));
 
+    // ---- message shapes: the same text reaches the encoder as one, several or very many `write_str` pieces ----------
+    {
+        let long128: String = "L".repeat(127) + "\"";
+        let long129 = long_text(rng, 129, 129);
+        let long1k = long_text(rng, 1024, 1024);
+        let long9k = long_text(rng, 9000, 9000);
+        let shapes: Vec<Msg> = vec![
+            Msg::new(Shape::Args, vec![]).unwrap(),
+            Msg::new(Shape::Const, vec![]).unwrap(),
+            Msg::new(Shape::Args, vec!["only".into()]).unwrap(),
+            // an escape sequence must not be assembled across a piece boundary: `\` then `n`, `\` then `"`, `\u` then digits
+            Msg::new(Shape::Args, vec!["a\\".into(), "n".into()]).unwrap(),
+            Msg::new(Shape::Args, vec!["\\".into(), "\"".into(), "\\".into()]).unwrap(),
+            Msg::new(Shape::Args, vec!["\\u".into(), "00".into(), "41".into(), "\n".into()]).unwrap(),
+            Msg::new(Shape::Args, vec!["\u{d7ff}".into(), "\u{1f600}".into(), "\u{e000}".into()]).unwrap(),
+            Msg::new(Shape::Args, vec!["".into(), "".into(), "x".into(), "".into()]).unwrap(),
+            // a long piece right after a short one (and before one): 128, 129, 1024, 9000
+            Msg::new(Shape::Args, vec!["id=".into(), long128.clone()]).unwrap(),
+            Msg::new(Shape::Args, vec!["id=".into(), long129.clone(), " done".into()]).unwrap(),
+            Msg::new(Shape::Args, vec!["k".into(), long1k.clone(), "\n".into(), long129.clone()]).unwrap(),
+            Msg::new(Shape::Args, vec!["0123456789".into(), long9k.clone()]).unwrap(),
+            Msg::new(Shape::Args, vec![long129.clone(), "tail".into()]).unwrap(),
+            Msg::new(Shape::Lit, vec!["short".into()]).unwrap(),
+            Msg::new(Shape::Lit, vec![long128.clone()]).unwrap(),
+            Msg::new(Shape::Lit, vec![long1k.clone()]).unwrap(),
+            Msg::new(Shape::Lit, vec![long9k.clone()]).unwrap(),
+            Msg::new(Shape::Lit, vec!["q\"\n\\".into()]).unwrap(),
+            Msg::new(Shape::Chars, vec![all.clone()]).unwrap(),
+            Msg::new(Shape::Chars, vec![long129.clone()]).unwrap(),
+            Msg::new(Shape::Chars, vec![String::new()]).unwrap(),
+            Msg::new(Shape::Pad, vec!["ab".into(), "c".into()]).unwrap(),
+            Msg::new(Shape::Pad, vec!["\u{1f600}\n".into(), "\"".into()]).unwrap(),
+            Msg::new(Shape::Pad, vec!["longer than six".into(), long129.clone()]).unwrap(),
+            Msg::new(Shape::Pad, vec![String::new(), String::new()]).unwrap(),
+        ];
+        for (i, m) in shapes.iter().enumerate() {
+            let named = if i % 2 == 0 { Some("shape") } else { None };
+            emit(case_line_m(1 + i % 5, m, "shapes", Some("m"), None, Some(i as u32), named, &[("k".to_owned(), "v".to_owned())]));
+        }
+    }
+    // ---- length: a long arbitrary-Unicode string in each text position ---------------------------------------
+    {
+        let (lo, hi) = if thorough { (3000, 5000) } else { (600, 1200) };
+        for pos in 0..7 {
+            let big = rand_long_unicode(rng, lo, hi, pos == 4);
+            let (mut msg, mut target, mut mp, mut file, mut thread, mut mdc) =
+                ("m".to_owned(), "t".to_owned(), Some("mp".to_owned()), Some("f".to_owned()), Some("th".to_owned()), vec![("k".to_owned(), "v".to_owned())]);
+            match pos {
+                0 => msg = big,
+                1 => target = big,
+                2 => mp = Some(big),
+                3 => file = Some(big),
+                4 => thread = Some(big),
+                5 => mdc[0].0 = big,
+                _ => mdc[0].1 = big,
+            }
+            emit(case_line(2, &msg, &target, mp.as_deref(), file.as_deref(), Some(1), thread.as_deref(), &mdc));
+        }
+    }
+
     // ---- random stream -------------------------------------------------------------------------
     for _ in 0..n {
         let level = rng.range(1, 5) as usize;
-        let msg = rand_string(rng, thorough, false);
-        let target = rand_string(rng, thorough, false);
-        let mp = if rng.chance(1, 2) { Some(rand_string(rng, thorough, false)) } else { None };
-        let file = if rng.chance(1, 2) { Some(rand_string(rng, thorough, false)) } else { None };
+        // now and then one position carries a long random-Unicode text
+        let long_pos: Option<u64> = if rng.chance(1, if thorough { 30 } else { 40 }) { Some(rng.below(7)) } else { None };
+        let (llo, lhi) = if thorough { (200, 4000) } else { (200, 900) };
+        let mut pick = |rng: &mut Rng, pos: u64, no_nul: bool| -> String {
+            if long_pos == Some(pos) {
+                rand_long_unicode(rng, llo, lhi, no_nul)
+            } else {
+                rand_string(rng, thorough, no_nul)
+            }
+        };
+        let msg = pick(rng, 0, false);
+        let msg = rand_shape(rng, msg);
+        let target = pick(rng, 1, false);
+        let mp = if rng.chance(1, 2) || long_pos == Some(2) { Some(pick(rng, 2, false)) } else { None };
+        let file = if rng.chance(1, 2) || long_pos == Some(3) { Some(pick(rng, 3, false)) } else { None };
         let line = if rng.chance(1, 2) {
             Some(match rng.below(4) {
                 0 => rng.below(10) as u32,
@@ -193,27 +422,37 @@ pub fn gen(rng: &mut Rng, n: usize, thorough: bool, emit: &mut dyn FnMut(String)
         } else {
             None
         };
-        let thread = if rng.chance(1, 2) { Some(rand_string(rng, thorough, true)) } else { None };
-        let nm = match rng.below(6) {
+        let thread = if rng.chance(1, 2) || long_pos == Some(4) { Some(pick(rng, 4, true)) } else { None };
+        let mut nm = match rng.below(6) {
             0 | 1 => 0,
             2 => 1,
             3 => 2,
             _ => rng.range(0, if thorough { 12 } else { 5 }),
         };
+        if long_pos >= Some(5) && nm == 0 {
+            nm = 1;
+        }
         let mut mdc: Vec<(String, String)> = (0..nm).map(|_| (rand_string(rng, thorough, false), rand_string(rng, thorough, false))).collect();
+        if long_pos == Some(5) {
+            mdc[0].0 = pick(rng, 5, false);
+        }
+        if long_pos == Some(6) {
+            mdc[0].1 = pick(rng, 6, false);
+        }
         if nm > 0 && rng.chance(1, 6) {
             // overwrite an existing key
             let k = mdc[rng.below(nm) as usize].0.clone();
             mdc.push((k, rand_string(rng, thorough, false)));
         }
-        emit(case_line(level, &msg, &target, mp.as_deref(), file.as_deref(), line, thread.as_deref(), &mdc));
+        emit(case_line_m(level, &msg, &target, mp.as_deref(), file.as_deref(), line, thread.as_deref(), &mdc));
     }
+    gen_multi(rng, n, thorough, emit);
     gen_seq(rng, n, thorough, emit);
 }
 
 struct Case {
     level: Level,
-    msg: String,
+    msg: Msg,
     target: String,
     mp: Option<String>,
     file: Option<String>,
@@ -255,7 +494,7 @@ fn decode(fields: &[&str]) -> Option<Case> {
     }
     Some(Case {
         level: LEVELS[lv - 1],
-        msg: dec_str(fields[1])?,
+        msg: Msg::dec(fields[1])?,
         target: dec_str(fields[2])?,
         mp: dec_opt_str(fields[3])?,
         file: dec_opt_str(fields[4])?,
@@ -284,17 +523,19 @@ fn run_on_thread(c: &Case) -> Run {
         let tid = thread_id::get();
         let out = guarded(move || {
             let mut buf: Vec<u8> = vec![];
-            let r = JsonEncoder::new().encode(
-                &mut SimpleWriter(&mut buf),
-                &log::Record::builder()
-                    .level(level)
-                    .target(&target)
-                    .module_path(mp.as_deref())
-                    .file(file.as_deref())
-                    .line(line)
-                    .args(format_args!("{}", msg))
-                    .build(),
-            );
+            let r = with_message(&msg, &mut |args| {
+                JsonEncoder::new().encode(
+                    &mut SimpleWriter(&mut buf),
+                    &log::Record::builder()
+                        .level(level)
+                        .target(&target)
+                        .module_path(mp.as_deref())
+                        .file(file.as_deref())
+                        .line(line)
+                        .args(args)
+                        .build(),
+                )
+            });
             r.map(|()| buf).map_err(|e| e.to_string())
         });
         log_mdc::clear();
@@ -333,7 +574,7 @@ fn independent(c: &Case, bytes: &[u8], tid: usize) -> String {
         (Some(Value::String(s)), Some(w)) => s == w,
         _ => false,
     };
-    if o.get("message").and_then(|x| x.as_str()) != Some(&c.msg) {
+    if o.get("message").and_then(|x| x.as_str()) != Some(&c.msg.text) {
         return "FAIL-message".to_owned();
     }
     if o.get("level").and_then(|x| x.as_str()) != Some(level) {
@@ -386,6 +627,9 @@ pub fn exec(fields: &[&str]) -> String {
     if fields.first() == Some(&"seq") {
         return exec_seq(fields);
     }
+    if fields.first() == Some(&"multi") {
+        return exec_multi(fields);
+    }
     let c = match decode(fields) {
         Some(c) => c,
         None => return "bad-case".to_owned(),
@@ -428,7 +672,7 @@ pub fn child(_args: &[String]) -> i32 {
 #[derive(Clone)]
 struct StepSpec {
     level: usize,
-    msg: String,
+    msg: Msg,
     target: String,
     mp: Option<String>,
     file: Option<String>,
@@ -443,7 +687,7 @@ fn step_text(s: &StepSpec) -> String {
     format!(
         "{};{};{};{};{};{};{};{};{}",
         s.level,
-        enc_str(&s.msg),
+        s.msg.enc(),
         enc_str(&s.target),
         enc_opt(s.mp.as_deref(), enc_str),
         enc_opt(s.file.as_deref(), enc_str),
@@ -462,7 +706,7 @@ fn seq_line(thread: Option<&str>, steps: &[StepSpec]) -> String {
 fn plain_step(msg: &str) -> StepSpec {
     StepSpec {
         level: 3,
-        msg: msg.to_owned(),
+        msg: Msg::plain(msg),
         target: "app::db".to_owned(),
         mp: Some("app::db".to_owned()),
         file: Some("src/db.rs".to_owned()),
@@ -494,6 +738,79 @@ fn long_text(rng: &mut Rng, lo: u64, hi: u64) -> String {
     s.chars().take(len).collect()
 }
 
+/// split `text` at up to `cuts` random character boundaries
+fn split_random(rng: &mut Rng, text: &str, cuts: usize) -> Vec<String> {
+    let chars: Vec<char> = text.chars().collect();
+    let mut at: Vec<usize> = (0..cuts).map(|_| rng.range(0, chars.len() as u64) as usize).collect();
+    at.sort();
+    let mut parts = vec![];
+    let mut prev = 0;
+    for a in at {
+        parts.push(chars[prev..a].iter().collect::<String>());
+        prev = a;
+    }
+    parts.push(chars[prev..].iter().collect::<String>());
+    parts
+}
+
+/// the same text handed to the encoder in a random shape (one argument, several, a literal frame, char by char, padded)
+fn rand_shape(rng: &mut Rng, text: String) -> Msg {
+    match rng.below(12) {
+        0..=4 => Msg::plain(&text),
+        5 | 6 => {
+            let cuts = rng.range(1, 3) as usize;
+            Msg::new(Shape::Args, split_random(rng, &text, cuts)).unwrap()
+        }
+        7 => Msg::new(Shape::Lit, vec![text]).unwrap(),
+        8 => Msg::new(Shape::Chars, vec![text]).unwrap(),
+        9 => {
+            let mut ps = split_random(rng, &text, 1);
+            if rng.chance(1, 2) {
+                ps[0] = ps[0].chars().take(rng.range(0, 5) as usize).collect();
+            }
+            Msg::new(Shape::Pad, ps).unwrap()
+        }
+        10 => {
+            // a long piece right after a short one
+            let short: String = text.chars().take(rng.range(1, 10) as usize).collect();
+            let hi = *rng.pick(&[140u64, 300, 1100, 2000]);
+            let long = long_text(rng, 128, hi);
+            let mut ps = vec![short, long];
+            if rng.chance(1, 2) {
+                ps.push(text.chars().rev().take(3).collect());
+            }
+            Msg::new(Shape::Args, ps).unwrap()
+        }
+        _ => {
+            if rng.chance(1, 4) {
+                Msg::new(Shape::Const, vec![]).unwrap()
+            } else if rng.chance(1, 3) {
+                Msg::new(Shape::Args, vec![]).unwrap()
+            } else {
+                Msg::new(Shape::Args, vec![text]).unwrap()
+            }
+        }
+    }
+}
+
+/// random scalar values (all planes, controls, quotes) — long, for any text position
+fn rand_long_unicode(rng: &mut Rng, lo: u64, hi: u64, no_nul: bool) -> String {
+    let specials = special_chars();
+    let len = rng.range(lo, hi);
+    let s: String = (0..len)
+        .map(|_| match rng.below(8) {
+            0 | 1 => *rng.pick(&specials),
+            2 | 3 => (b'a' + rng.below(26) as u8) as char,
+            _ => rand_scalar(rng),
+        })
+        .collect();
+    if no_nul {
+        s.replace('\u{0}', "\u{1}")
+    } else {
+        s
+    }
+}
+
 fn rand_step(rng: &mut Rng, thorough: bool) -> StepSpec {
     let msg = match rng.below(8) {
         0 => String::new(),
@@ -510,6 +827,7 @@ fn rand_step(rng: &mut Rng, thorough: bool) -> StepSpec {
         }
         _ => (*rng.pick(TRICKY)).to_owned(),
     };
+    let msg = rand_shape(rng, msg);
     let target = match rng.below(5) {
         0 => String::new(),
         1 => long_text(rng, 64, 200),
@@ -539,7 +857,7 @@ fn rand_step(rng: &mut Rng, thorough: bool) -> StepSpec {
 }
 
 fn rand_failure(rng: &mut Rng, s: &mut StepSpec) {
-    let mlen = s.msg.len() as u64;
+    let mlen = s.msg.text.len() as u64;
     match rng.below(9) {
         0 => s.writer = "a0".to_owned(),
         1 => s.writer = format!("a{}", rng.range(1, 70)),
@@ -548,7 +866,7 @@ fn rand_failure(rng: &mut Rng, s: &mut StepSpec) {
         5 => s.writer = "e1".to_owned(),
         6 => s.writer = format!("e{}", rng.range(2, 30)),
         _ => {
-            s.display = Some(rng.range(0, s.msg.chars().count() as u64) as usize);
+            s.display = Some(rng.range(0, s.msg.text.chars().count() as u64) as usize);
             if rng.chance(1, 5) {
                 s.writer = format!("m{}", rng.range(0, mlen + 2));
             }
@@ -653,7 +971,7 @@ fn decode_step(s: &str) -> Option<StepSpec> {
     }
     Some(StepSpec {
         level,
-        msg: dec_str(f[1])?,
+        msg: Msg::dec(f[1])?,
         target: dec_str(f[2])?,
         mp: dec_opt_str(f[3])?,
         file: dec_opt_str(f[4])?,
@@ -718,11 +1036,22 @@ fn encode_step(enc: &JsonEncoder, s: &StepSpec, limit: Option<usize>, display: O
         let wref = &mut w;
         std::panic::catch_unwind(std::panic::AssertUnwindSafe(move || {
             let mut sw = SimpleWriter(wref);
-            let mut b = log::Record::builder();
-            b.level(level).target(&s.target).module_path(s.mp.as_deref()).file(s.file.as_deref()).line(s.line);
+            let mut go = |args: std::fmt::Arguments| {
+                enc.encode(
+                    &mut sw,
+                    &log::Record::builder()
+                        .level(level)
+                        .target(&s.target)
+                        .module_path(s.mp.as_deref())
+                        .file(s.file.as_deref())
+                        .line(s.line)
+                        .args(args)
+                        .build(),
+                )
+            };
             match display {
-                None => enc.encode(&mut sw, &b.args(format_args!("{}", s.msg)).build()),
-                Some(n) => enc.encode(&mut sw, &b.args(format_args!("{}", Flaky { text: &s.msg, n })).build()),
+                None => with_message(&s.msg, &mut go),
+                Some(n) => go(format_args!("{}", Flaky { text: &s.msg.text, n })),
             }
         }))
     };
@@ -870,6 +1199,177 @@ fn exec_seq(fields: &[&str]) -> String {
             iso,
             payload
         ));
+    }
+    obs
+}
+
+// ------------------------------------------------------------------------------------------------
+// several threads, one encoder
+// ------------------------------------------------------------------------------------------------
+
+#[derive(Clone)]
+struct Entry {
+    thread: Option<String>,
+    step: StepSpec,
+}
+
+fn entry_text(e: &Entry) -> String {
+    let s = &e.step;
+    let entries: Vec<String> = s.mdc.iter().map(|(k, v)| format!("{}:{}", enc_str(k), enc_str(v))).collect();
+    format!(
+        "{};{};{};{};{};{};{};{}",
+        enc_opt(e.thread.as_deref(), enc_str),
+        s.level,
+        s.msg.enc(),
+        enc_str(&s.target),
+        enc_opt(s.mp.as_deref(), enc_str),
+        enc_opt(s.file.as_deref(), enc_str),
+        enc_opt(s.line, |n| n.to_string()),
+        enc_list(",", &entries)
+    )
+}
+
+fn multi_line(mode: &str, entries: &[Entry]) -> String {
+    let es: Vec<String> = entries.iter().map(entry_text).collect();
+    format!("multi\t{}\t{}", mode, es.join("|"))
+}
+
+fn decode_entry(s: &str) -> Option<Entry> {
+    let (t, rest) = s.split_once(';')?;
+    let thread = dec_opt_str(t)?;
+    if thread.as_deref().map_or(false, |t| t.contains('\u{0}')) {
+        return None;
+    }
+    let step = decode_step(&format!("{};ok;-", rest))?;
+    Some(Entry { thread, step })
+}
+
+fn gen_multi(rng: &mut Rng, n: usize, thorough: bool, emit: &mut dyn FnMut(String)) {
+    let entry = |thread: Option<&str>, msg: &str, mdc: &[(&str, &str)]| Entry {
+        thread: thread.map(|t| t.to_owned()),
+        step: {
+            let mut s = plain_step(msg);
+            s.mdc = mdc.iter().map(|(k, v)| (k.to_string(), v.to_string())).collect();
+            s
+        },
+    };
+    // main thread
+    emit(multi_line("main", &[entry(Some("main"), "on main", &[]), entry(Some("main"), "again \"main\"\n", &[("k", "v")])]));
+    // deliberate thread-id reuse: named, then unnamed, then another name, then the first name again
+    emit(multi_line(
+        "succ",
+        &[entry(Some("alpha"), "1", &[("who", "alpha")]), entry(None, "2", &[]), entry(Some("beta"), "3", &[("who", "beta")]), entry(Some("alpha"), "4", &[]), entry(None, "5", &[])],
+    ));
+    emit(multi_line("succ", &[entry(None, "1", &[]), entry(Some("late-name"), "2", &[]), entry(Some(""), "3", &[])]));
+    // live threads with different names and MDCs
+    emit(multi_line(
+        "conc",
+        &[entry(Some("w1"), "from w1", &[("id", "1")]), entry(Some("w2"), "from w2", &[("id", "2"), ("x", "y")]), entry(None, "from unnamed", &[]), entry(Some("w1"), "same name, other thread", &[("id", "1b")])],
+    ));
+    let count = if thorough { n / 60 } else { n / 40 };
+    for _ in 0..count {
+        let mode = *rng.pick(&["succ", "succ", "conc", "conc", "main"]);
+        let len = if mode == "main" { rng.range(1, 3) } else { rng.range(2, if thorough { 12 } else { 6 }) } as usize;
+        let entries: Vec<Entry> = (0..len)
+            .map(|_| {
+                let thread = if mode == "main" {
+                    Some("main".to_owned())
+                } else if rng.chance(1, 3) {
+                    None
+                } else if rng.chance(1, 2) {
+                    Some((*rng.pick(&["a", "b", "worker", "main", ""])).to_owned())
+                } else {
+                    Some(rand_string(rng, false, true))
+                };
+                Entry { thread, step: rand_step(rng, thorough) }
+            })
+            .collect();
+        emit(multi_line(mode, &entries));
+    }
+}
+
+struct EntryRun {
+    tid: usize,
+    order: Vec<String>,
+    kind: &'static str,
+    bytes: Vec<u8>,
+}
+
+fn run_entry(enc: &JsonEncoder, e: &Entry, sync: Option<&std::sync::Barrier>) -> EntryRun {
+    let order = set_mdc(&e.step.mdc);
+    let tid = thread_id::get();
+    if let Some(b) = sync {
+        b.wait();
+    }
+    let (kind, bytes) = encode_step(enc, &e.step, None, None);
+    if let Some(b) = sync {
+        b.wait();
+    }
+    log_mdc::clear();
+    EntryRun { tid, order, kind, bytes }
+}
+
+fn exec_multi(fields: &[&str]) -> String {
+    if fields.len() != 3 {
+        return "bad-case".to_owned();
+    }
+    let mode = fields[1];
+    let entries: Vec<Entry> = match fields[2].split('|').map(decode_entry).collect::<Option<Vec<_>>>() {
+        Some(e) if !e.is_empty() && e.len() <= 64 => e,
+        _ => return "bad-case".to_owned(),
+    };
+    let enc = std::sync::Arc::new(JsonEncoder::new());
+    let runs: Vec<EntryRun> = match mode {
+        "main" => {
+            if std::thread::current().name() != Some("main") || entries.iter().any(|e| e.thread.as_deref() != Some("main")) {
+                return "bad-case".to_owned();
+            }
+            entries.iter().map(|e| run_entry(&enc, e, None)).collect()
+        }
+        "succ" => entries
+            .iter()
+            .map(|e| {
+                let (enc, e2) = (enc.clone(), e.clone());
+                spawn_named(&e.thread, move || run_entry(&enc, &e2, None))
+            })
+            .collect(),
+        "conc" => {
+            let barrier = std::sync::Arc::new(std::sync::Barrier::new(entries.len()));
+            let handles: Vec<_> = entries
+                .iter()
+                .map(|e| {
+                    let (enc, e2, b) = (enc.clone(), e.clone(), barrier.clone());
+                    let builder = match &e.thread {
+                        Some(n) => std::thread::Builder::new().name(n.clone()),
+                        None => std::thread::Builder::new(),
+                    };
+                    builder.spawn(move || run_entry(&enc, &e2, Some(&b))).expect("spawn")
+                })
+                .collect();
+            handles.into_iter().map(|h| h.join().expect("join")).collect()
+        }
+        _ => return "bad-case".to_owned(),
+    };
+    let mut obs = "multi".to_owned();
+    for (e, r) in entries.iter().zip(runs.iter()) {
+        let order_s: Vec<String> = r.order.iter().map(|k| enc_str(k)).collect();
+        let (indep, payload) = match (r.kind, String::from_utf8(r.bytes.clone())) {
+            ("ok", Ok(text)) => {
+                let c = Case {
+                    level: LEVELS[e.step.level - 1],
+                    msg: e.step.msg.clone(),
+                    target: e.step.target.clone(),
+                    mp: e.step.mp.clone(),
+                    file: e.step.file.clone(),
+                    line: e.step.line,
+                    thread: e.thread.clone(),
+                    mdc: e.step.mdc.clone(),
+                };
+                (independent(&c, &r.bytes, r.tid), format!("t{}", enc_str(&text)))
+            }
+            _ => ("-".to_owned(), format!("b{}", enc_bytes(&r.bytes))),
+        };
+        obs.push_str(&format!(" {};{};{};{};{};{}", r.tid, enc_str(&time_of(&r.bytes)), enc_list(",", &order_s), r.kind, indep, payload));
     }
     obs
 }
